@@ -364,6 +364,14 @@ class PathState(object):
         return self.model
 
 
+class _Raw(object):
+    """a root handed over by another process, still in its portable form"""
+    __slots__ = ("items",)
+
+    def __init__(self, items):
+        self.items = items
+
+
 class Explorer(object):
     def __init__(self, fn, timeout_ms=60000, max_paths=None, max_seconds=None,
                  logic=os.environ.get("PYSX_LOGIC", "QF_BV"), prefix_roots=None, defer_depth=None,
@@ -478,7 +486,8 @@ class Explorer(object):
         if self.max_seconds is not None:
             self.deadline = t0 + self.max_seconds
         if self.prefix_roots:
-            self.work = [(self.import_keys(p), None, None) for p in self.prefix_roots]
+            # imported lazily (deserializing thousands of literal lists up front can take minutes)
+            self.work = [(_Raw(p), None, None) for p in reversed(self.prefix_roots)]
         else:
             self.work = [([], None, None)]
         while self.work:
@@ -495,10 +504,12 @@ class Explorer(object):
             if self.yield_after is not None and time.time() - t0 > self.yield_after and len(self.work) >= 2:
                 # hand the queued sub-trees back to the scheduler (work sharing between processes)
                 for keys, _m, _r in self.work:
-                    self.deferred.append(self.export_keys(keys))
+                    self.deferred.append(keys.items if isinstance(keys, _Raw) else self.export_keys(keys))
                 self.work = []
                 break
             keys, model, raw_ok = self.work.pop()
+            if isinstance(keys, _Raw):
+                keys = self.import_keys(keys.items)
             self.stats.max_prefix = max(self.stats.max_prefix, len(keys))
             if self.n_defs > self.max_defs:
                 self.reset_solver()
